@@ -41,7 +41,7 @@ FUNCS = [
     ("ubxmessage.py", "UBXMessage._set_attribute_bits"), ("ubxmessage.py", "UBXMessage._set_attribute_bitfield"),
     ("ubxmessage.py", "UBXMessage._set_attribute_cfgval"),
     ("ubxhelpers.py", "key_from_val"), ("ubxhelpers.py", "msgstr2bytes"), ("ubxhelpers.py", "msgclass2bytes"),
-    ("ubxhelpers.py", "cfgname2key"),
+    ("ubxhelpers.py", "cfgname2key"), ("ubxhelpers.py", "bytes2val"),
     ("ubxmessage.py", "UBXMessage.msg_cls"), ("ubxmessage.py", "UBXMessage.msg_id"), ("ubxmessage.py", "UBXMessage.msgmode"),
 ]
 
@@ -59,6 +59,7 @@ class Tr:
         self.locals = set(params)
         self.names = {}
         self.kwparam = kwparam
+        self.fresh_lists = set()
 
     def nm(self, s):
         self.names[s] = enc(s)
@@ -220,12 +221,24 @@ class Tr:
 
     def S(self, n):
         if isinstance(n, ast.Expr):
+            c = n.value
+            if (isinstance(c, ast.Call) and isinstance(c.func, ast.Attribute) and c.func.attr == "append"
+                    and isinstance(c.func.value, ast.Name) and c.func.value.id in self.fresh_lists
+                    and len(c.args) == 1 and not c.keywords):
+                # `x.append(e)` on a list this function created itself (`x = []`) and has not handed out: `x = x + [e]`
+                t = self.nm(c.func.value.id)
+                return f"(.assign {t} (.bin .add (.var {t}) (.tuple [{self.E(c.args[0])}])))"
             return f"(.expr {self.E(n.value)})"
         if isinstance(n, ast.Assign):
             if len(n.targets) != 1:
                 self.bad(n, "multiple targets")
             t = n.targets[0]
             if isinstance(t, ast.Name):
+                if isinstance(n.value, ast.List) and not n.value.elts:
+                    # `x = []`: a fresh list, carried as an (immutable) tuple; only `x.append(e)` is accepted on it
+                    self.fresh_lists.add(t.id)
+                    self.locals.add(t.id)
+                    return f"(.assign {self.nm(t.id)} (.tuple []))"
                 r = f"(.assign {self.nm(t.id)} {self.E(n.value)})"
                 self.locals.add(t.id)
                 return r
